@@ -1,6 +1,7 @@
 (* dispatch : list Z -> list Z  -- the single entry point of the extracted model *)
 From Coq Require Import ZArith List Bool.
-From GV.Model Require Export Wire Wire2 Repr Gym Rays Factory.
+From GV.Model Require Export Wire Wire2 Repr Gym Rays Factory Schema.
+From GV.Gen Require Import Schema.
 Import ListNotations.
 Open Scope Z_scope.
 
@@ -137,6 +138,34 @@ Definition op_factory (l : list Z) : list Z :=
   run (do reg <- plist psigrow; do name <- pZ; do ks <- plist pZ; pret (reg, name, ks))
       (fun '(reg, name, ks) => eres (fun r => Z.of_nat (fst r) :: elist (fun e => [fst e]) (snd r)) (factory reg name (map (fun k => (k, tt)) ks))) l.
 
+(* a configuration tree: schema validation and construction order (Model/Schema.v) under the tables regenerated from /repo *)
+Fixpoint pcfg_fuel (fuel : nat) : parser cfg :=
+  match fuel with
+  | O => pfail
+  | S f => do t <- pZ;
+           if t =? 0 then pret CNull
+           else if t =? 1 then do b <- pbool; pret (CBool b)
+           else if t =? 2 then do z <- pZ; pret (CInt z)
+           else if t =? 3 then pret CFloat
+           else if t =? 4 then do s <- pZ; pret (CStr s)
+           else if t =? 5 then do l <- plist (pcfg_fuel f); pret (CList l)
+           else if t =? 6 then do kv <- plist (do k <- pcfg_fuel f; do v <- pcfg_fuel f; pret (k, v)); pret (CDict kv)
+           else pfail
+  end.
+Definition pcfg : parser cfg := fun l => pcfg_fuel (S (length l)) l.
+Fixpoint ecomp (c : comp) : list Z :=
+  match c with Comp fk i bound children =>
+    fk :: Z.of_nat i :: elist (fun k => [k]) bound ++ (Z.of_nat (length children) :: flat_map ecomp children) end.
+Definition edescr (d : descr) : list Z :=
+  elist (fun k => [k]) (d_state_types d) ++ elist (fun k => [k]) (d_state_colors d) ++ elist (fun k => [k]) (d_actions d) ++
+  elist (fun k => [k]) (d_obs_types d) ++ elist (fun k => [k]) (d_obs_colors d) ++
+  ecomp (d_reset d) ++ ecomp (d_transition d) ++ ecomp (d_reward d) ++ ecomp (d_observation d) ++ ecomp (d_terminating d).
+Definition op_build (l : list Z) : list Z :=
+  run (do sel <- pZ; do c <- pcfg; pret (sel, c))
+      (fun '(sel, c) => if sel =? 0 then eres edescr (build gen_tabs c)
+                        else if sel =? 1 then ebool (valid gen_tabs (k_env gen_tabs) c)
+                        else eres ecomp (fn gen_tabs (sel - 10) c)) l.
+
 Definition dispatch (l : list Z) : list Z :=
   match l with
   | 1 :: r => op_geometry r
@@ -157,5 +186,6 @@ Definition dispatch (l : list Z) : list Z :=
   | 16 :: r => op_advertised r
   | 17 :: r => op_fan r
   | 18 :: r => op_factory r
+  | 19 :: r => op_build r
   | _ => undecodable
   end.
